@@ -225,7 +225,10 @@ def impl(case):
                     continue
                 oracle += check_instance(S, o, inp, case["root"])
                 out.append(G.pyval_str(o))
-                out.append(G.json_str(o.json_dict()))
+                try:
+                    out.append(G.json_str(o.json_dict()))
+                except Exception as e:  # reported by the oracle as serialise-raises
+                    out.append("!%s" % type(e).__name__)
                 tags += _inst_tags(case["fam"], case["root"], inp)
         finally:
             F.close()
